@@ -447,7 +447,9 @@ def monitor(scen, plan, kind, ref, out, resolver):
                       "missing %s extra %s" % (lost[:4], extra[:4])))
     if not probs:
         return None
-    probs.sort()
+    prio = ["acct", "spin", "loop_not_closable", "no_completion", "eintr_not_transparent", "wrong_value", "lost_event",
+            "fdleak", "fdlost", "memleak", "lsan"]
+    probs.sort(key=lambda p_: (prio.index(p_[0]) if p_[0] in prio else len(prio), p_[1]))
     return (probs[0][0], "; ".join(t for _, t in probs[:3]))
 
 
@@ -830,7 +832,8 @@ def main():
                     for e in errs:
                         a1, a2 = "at:M.%s#%d=%s" % (nm, idx, e), "at:M.%s#%d=%s" % (nm, j, e)
                         plans.append((s_, a1 + ";" + a2, "pair", api, nm))
-                        repeat_of[(s_, a1 + ";" + a2)] = (a1, a2)
+                        if nm == "accept4":      # elsewhere the first failure shifts which call the second index denotes
+                            repeat_of[(s_, a1 + ";" + a2)] = (a1, a2)
                         for single in (a1, a2):
                             if not any(p_[0] == s_ and p_[1] == single for p_ in plans):
                                 plans.append((s_, single, e, api, nm))
